@@ -251,8 +251,9 @@ fn generate_state_impls(machine: &StateMachine) -> Result<Vec<TokenStream2>> {
 
 /// Generate a constructor method for the initial state.
 ///
-/// Creates a new machine instance in the initial state with all storage fields
-/// initialized to None. Takes a context parameter for hardware/external dependencies.
+/// Creates a new machine instance in the initial state. The initial state's own data (if
+/// it has any) is initialized with `Default`, every other storage field with None.
+/// Takes a context parameter for hardware/external dependencies.
 ///
 /// The context parameter type depends on whether a concrete context was specified:
 /// - Generic context: `ctx: C`
@@ -281,14 +282,22 @@ fn generate_state_impls(machine: &StateMachine) -> Result<Vec<TokenStream2>> {
 ///     }
 /// }
 /// ```
-fn generate_constructor(machine: &StateMachine, _state: &Ident) -> Result<TokenStream2> {
+fn generate_constructor(machine: &StateMachine, state: &Ident) -> Result<TokenStream2> {
     let storage_inits: Vec<_> = machine
         .state_storage
         .iter()
         .map(|spec| {
             let field = &spec.field;
-            quote! {
-                #field: ::core::option::Option::None
+            let ty = &spec.ty;
+            // The initial state's own data starts as Default, like on any other entry
+            if &spec.state_name == state {
+                quote! {
+                    #field: ::core::option::Option::Some(<#ty as ::core::default::Default>::default())
+                }
+            } else {
+                quote! {
+                    #field: ::core::option::Option::None
+                }
             }
         })
         .collect();
